@@ -36,9 +36,51 @@ def workdir(prop):
     return d
 
 
+_SPEC_HASH = None
+
+
+def _mc_cache_key(module, cfg_text, env, simulate, extra):
+    """Rehearsals only (VERIF_MC_CACHE=<dir>; never set by a registered command): a bounded model's output depends on the
+    specifications, its cfg and its input files alone - not on the code under test - so mutation rehearsals reuse it."""
+    global _SPEC_HASH
+    if _SPEC_HASH is None:
+        h = hashlib.sha256()
+        for root, _, files in sorted(os.walk(os.path.join(VERIF, "spec"))):
+            for fn in sorted(files):
+                if fn.endswith((".tla", ".cfg")):
+                    h.update(fn.encode())
+                    h.update(open(os.path.join(root, fn), "rb").read())
+        _SPEC_HASH = h.hexdigest()
+    h = hashlib.sha256((_SPEC_HASH + module + cfg_text + repr(simulate) + repr(list(extra))).encode())
+    for k, v in sorted((env or {}).items()):
+        h.update(k.encode())
+        h.update(open(v, "rb").read() if os.path.isfile(str(v)) else str(v).encode())
+    return h.hexdigest()[:32]
+
+
 def run_tlc(spec_dir, module, cfg_text, out_path, workers=8, env=None, timeout=1800, extra=(), heap="8g",
             simulate=None):
     """Runs TLC on spec_dir/module.tla with the given cfg text. Returns dict with counts and error text."""
+    cache = os.environ.get("VERIF_MC_CACHE")
+    if cache and not module.startswith("Trace_") and not simulate:
+        key = os.path.join(cache, module + "-" + _mc_cache_key(module, cfg_text, env, simulate, extra))
+        if os.path.exists(key + ".json"):
+            shutil.copyfile(key + ".out", out_path)
+            res = json.load(open(key + ".json"))
+            res["out"] = out_path
+            return res
+        res = _run_tlc(spec_dir, module, cfg_text, out_path, workers, env, timeout, extra, heap, simulate)
+        if not res["error"]:
+            os.makedirs(cache, exist_ok=True)
+            shutil.copyfile(out_path, key + ".out.tmp%d" % os.getpid())
+            os.replace(key + ".out.tmp%d" % os.getpid(), key + ".out")
+            json.dump(res, open(key + ".json", "w"))
+        return res
+    return _run_tlc(spec_dir, module, cfg_text, out_path, workers, env, timeout, extra, heap, simulate)
+
+
+def _run_tlc(spec_dir, module, cfg_text, out_path, workers=8, env=None, timeout=1800, extra=(), heap="8g",
+             simulate=None):
     wd = os.path.dirname(out_path)
     tag = os.path.basename(out_path).replace(".out", "")
     cfg_path = os.path.join(wd, tag + ".cfg")
